@@ -16,6 +16,7 @@ import (
 	"encoding/json"
 	"flag"
 	"fmt"
+	"github.com/datastax/go-cassandra-native-protocol/primitive"
 	"os"
 	"runtime"
 	"sync"
@@ -29,6 +30,15 @@ type jobResult struct {
 	Obs    []*obs `json:"obs"`
 	WallMs int64  `json:"wall_ms"`
 	Err    string `json:"err,omitempty"`
+	// c12 with a list configured: SELECTs prepared and executed at once at a listed consistency
+	RightAfter *rightAfter `json:"right_after_prepare,omitempty"`
+}
+
+type rightAfter struct {
+	Cons    string `json:"cons"`
+	Sent    int    `json:"sent"`
+	Altered int    `json:"altered"`
+	Err     string `json:"err,omitempty"`
 }
 
 type summary struct {
@@ -65,6 +75,23 @@ func runJob(mode string, j *job) (res *jobResult) {
 	defer js.close()
 	for _, x := range j.Ex {
 		res.Obs = append(res.Obs, js.run(x))
+	}
+	if mode == "c12" && len(j.Env.List) > 0 {
+		ra := &rightAfter{Cons: j.Env.List[0]}
+		if c, err := js.client("v4", "none"); err != nil {
+			ra.Err = err.Error()
+		} else if versions[j.Env.MaxV] >= primitive.ProtocolVersion4 {
+			n := 120
+			if js.thor {
+				n = 600
+			}
+			var e error
+			ra.Sent, ra.Altered, e = js.executeRightAfterPrepare(c, n, levelByName(ra.Cons))
+			if e != nil {
+				ra.Err = e.Error()
+			}
+		}
+		res.RightAfter = ra
 	}
 	return res
 }
